@@ -106,7 +106,7 @@ def classification_cases(seed, tier):
                 rhs = ("poly", e)
             body.append(("assign", v, rhs))
         rng.shuffle(body)
-        init = [("assign", v, ("poly", num(rng.choice([1, 2, Fraction(1, 2)])))) for v in vs]
+        init = [("assign", v, ("poly", num(rng.choice([2, 3, Fraction(1, 2), 5])))) for v in vs]
         prog = Program([], init, ("true",), body)
         out.append({"id": f"classify-{cs}", "kind": "classify", "text": program_str(prog), "ast": prog.to_json(), "features": ["classification"]})
     return out
@@ -162,6 +162,25 @@ def run_classify(case, tier):
     res = {"fingerprint": K.fingerprint(case["text"]), "features": case["features"], "events": {}, "violations": [], "comparisons": 0,
            "refusals": [], "extra": {}}
     truth = true_defective(prog)
+    # the structural classification assumes unbounded variables: a variable whose reachable value set stops growing
+    # (fixed points such as x = x**2 from 1) is finitely valued and legitimately effective -> such cases decide nothing
+    try:
+        eng = Engine(prog, {}, {}, max_states=20000)
+        seen = {v: set() for v in truth}
+        sizes = []
+        d = eng.initial()
+        for n in range(5):
+            for st in d:
+                for v in truth:
+                    seen[v].add(st[eng.index[v]])
+            sizes.append({v: len(seen[v]) for v in truth})
+            d = eng.step(d)
+        if any(sizes[-1][v] == sizes[-3][v] for v in truth):
+            res.update(verdict="inconclusive", reason="degenerate-finite-values")
+            return res
+    except (Unsupported, CapExceeded, DomainError):
+        res.update(verdict="inconclusive", reason="oracle-cap")
+        return res
     P.reset_settings()
     try:
         program, rb = P.prepare(case["text"])
